@@ -14,13 +14,15 @@ import (
 func init() {
 	register(&Prop{
 		ID:          "C02",
-		Explanation: "Decides the wiring of tamper-evidence and opacity: the signer feeds the MAC (seed as key; cookie name, base64 value, decimal timestamp in that order) and emits value|timestamp|signature built from those same three strings, while the verifier checks part 2 as the signature over (seed, cookie.Name, part 0, part 1) — same roles, same order, all of name, value and timestamp covered on both sides; cookieSignature keys hmac.New with its first argument, writes every further argument and returns the base64 of Sum; checkHmac compares with hmac.Equal the complete base64-decoded presented and expected signatures (no slicing, trimming or prefix compare) after both decode without error; every non-empty value given to MakeCookieFromOptions derives from SignedValue; session, ticket and CSRF payloads are decoded only from the value Validate returned for that cookie (C01.R7, C03.R2); the split-cookie loader hands the joined cookie itself to Validate; msgpack output of a session or CSRF flows only into Cipher.Encrypt (optionally through lz4Compress) and EncodeSessionState returns only Encrypt's result; what is stored server-side and what is signed into cookies derives from those ciphertexts or from the encoded ticket; every Cipher implementation in use wraps AES (cipher constructors enumerated); decodeTicket, DecodeSessionState and the CSRF decrypt are called only from their reviewed, validate-first callers and tickets are constructed only by newTicket/decodeTicket; a new ticket's id and per-ticket AES key are buffers filled by error-free crypto/rand reads. Added during the build: the payload decoders and ticket literals have closed, reviewed caller sets (R7); a new ticket's id and AES key come from successful crypto/rand reads (R8); every encrypting Cipher uses as nonce/IV the very slice an error-free crypto/rand read filled (R9). Round 7: request handling keeps no state of its own between requests — no store, map update, in-place builtin, atomic/sync.Map write or pointer-receiver library call (singleflight, caches) reached from ServeHTTP targets a package-level variable, an object built at start-up, or a constructor variable captured by the handler it returned, declared in the packages implementing this property (RS; a class-wide who-may-write rule with zero instances today: a correct memoisation would be reported until reviewed).",
+		Explanation: "Decides the wiring of tamper-evidence and opacity: the signer feeds the MAC (seed as key; cookie name, base64 value, decimal timestamp in that order) and emits value|timestamp|signature built from those same three strings, while the verifier checks part 2 as the signature over (seed, cookie.Name, part 0, part 1) — same roles, same order, all of name, value and timestamp covered on both sides; cookieSignature keys hmac.New with its first argument, writes every further argument and returns the base64 of Sum; checkHmac compares with hmac.Equal the complete base64-decoded presented and expected signatures (no slicing, trimming or prefix compare) after both decode without error; every non-empty value given to MakeCookieFromOptions derives from SignedValue; session, ticket and CSRF payloads are decoded only from the value Validate returned for that cookie (C01.R7, C03.R2); the split-cookie loader hands the joined cookie itself to Validate; msgpack output of a session or CSRF flows only into Cipher.Encrypt (optionally through lz4Compress) and EncodeSessionState returns only Encrypt's result; what is stored server-side and what is signed into cookies derives from those ciphertexts or from the encoded ticket; every Cipher implementation in use wraps AES (cipher constructors enumerated); decodeTicket, DecodeSessionState and the CSRF decrypt are called only from their reviewed, validate-first callers and tickets are constructed only by newTicket/decodeTicket; a new ticket's id and per-ticket AES key are buffers filled by error-free crypto/rand reads. Added during the build: the payload decoders and ticket literals have closed, reviewed caller sets (R7); a new ticket's id and AES key come from successful crypto/rand reads (R8); every encrypting Cipher uses as nonce/IV the very slice an error-free crypto/rand read filled (R9). Round 7: request handling keeps no state of its own between requests — no store, map update, in-place builtin, atomic/sync.Map write or pointer-receiver library call (singleflight, caches) reached from ServeHTTP targets a package-level variable, an object built at start-up, or a constructor variable captured by the handler it returned, declared in the packages implementing this property (RS; a class-wide who-may-write rule with zero instances today: a correct memoisation would be reported until reviewed). Round 8 (class-wide, P12): in the packages implementing this property every named error result that is used at all is examined — compared with nil, returned, stored or handed to a non-formatting function — unless the code validates the value result instead (RE; zero instances today).",
 		NotDecided:  "the cryptography itself; that unkeyed concatenation of name, value and timestamp is unambiguous; base64 laxness; 'decodes to exactly the session' (value semantics over all edits).",
 		Run:         runC02,
 	})
 }
 
 func runC02(c *Ctx) {
+	c.R.Rule("RE-errors-examined", "in the packages implementing this property every named error result that is used at all is examined, or the value is validated instead (P12, class-wide, round 8)", 1)
+	runErrorsExamined(c, "RE-errors-examined", "pkg/encryption", "pkg/sessions/persistence", "pkg/sessions/cookie")
 	c.R.Rule("RS-no-request-time-state", "request handling writes no state that outlives the request (package-level variables, objects built at start-up, constructor variables captured by handlers) declared in the packages implementing this property", 1)
 	runStateless(c, "RS-no-request-time-state", "pkg/encryption", "pkg/cookies", "pkg/sessions")
 	r := c.R
